@@ -1,7 +1,7 @@
 use crate::builtins::{self, Builtin};
 use crate::compiler::{Bytecode, OpCode};
 use crate::gc::GC;
-use crate::object::{Error, FromString, FromVec, Object, Type};
+use crate::object::{Error, FromString, FromVec, Object, Type, MIN_INT};
 
 #[cfg(feature = "debug")]
 use std::io::Write;
@@ -332,6 +332,12 @@ impl VM {
                     let left = self.pop();
                     let result = match left.tag() {
                         Type::Float => unsafe { Object::float(-left.as_f64_unchecked(), gc) },
+                        Type::Int if left.as_int() == MIN_INT => {
+                            return Err(Error::TypeError(format!(
+                                "kan {} niet omdraaien: uitkomst valt buiten het bereik van een integer",
+                                left.as_int()
+                            )))
+                        }
                         Type::Int => Object::int(-left.as_int()),
                         _ => {
                             return Err(Error::TypeError(format!(
